@@ -68,7 +68,8 @@ func init() {
 		"\u0130", "\u0131", "\u017f", "\u212a", "\u00df", // letters whose case mapping leaves ASCII or changes length
 	)
 	quoteAlphabet = withConfusables(append(quoteAlphabet, "\r\n", "\r", "\\\\", "\\'"))
-	lexAlphabet = withConfusables(append(lexAlphabet, "\r\n", "\"x\r\ny\"", "'p\r\nq'", "/r\r\n/"))
+	lexAlphabet = withConfusables(append(lexAlphabet, "\r\n", "\"x\r\ny\"", "'p\r\nq'", "/r\r\n/", "EOF", " EOF ", "eof"))
+	enumAlphabet = append(enumAlphabet, "EOF")
 	hostile = withConfusables(hostile)
 	for _, c := range []string{"\uff07", "\uff3c", "\u201c", "\u201d", "\u2019", "\uff02", "\u2028", "\u00a0", "\uff0a", "\uff1f", "\u0663"} {
 		quotedWords = append(quotedWords, `"a`+c+`b"`, `"`+c+`"`)
@@ -77,6 +78,27 @@ func init() {
 	}
 	quotedWords = append(quotedWords, "\"x\r\ny\"", `"a\\"`, `"\\\\"`, "'x\r\ny'") // no quote inside a phrase, escaped or not: it ends the phrase
 	regexWords = append(regexWords, `/b\\/`, `/\\/`, `/a\\\//`, `/\//`, "/a\r\nb/")
+	// words that mean something in a neighbouring language (Lucene/Elasticsearch special fields, SQL, Go, the JSON encoding)
+	magic := []string{"_exists_", "_missing_", "_all", "_id", "_index", "_type", "_source", "_field_names", "_score", "exists", "missing",
+		"select", "from", "where", "between", "like", "similar", "escape", "is", "in", "any", "all", "case", "cast", "default", "current_user", "user",
+		"func", "map", "range", "type", "nil", "NULL", "LITERAL", "EQUALS", "LIKE", "IN", "LIST", "RANGE", "BOOST", "FUZZY", "WILD", "REGEXP", "MUST", "MUST_NOT",
+		"UNDEFINED", "infinity", "e", "E", "00", "1e0", "0x0", "id", "ID", "EOF", "eof", "ERR", "TEOF", "now", "now-7d", "now-1M", "today", "yesterday", "current_date", "NOW"}
+	plainWords = append(plainWords, magic...)
+	for _, m := range magic {
+		if !strings.ContainsAny(m, "+") {
+			fieldNames = append(fieldNames, m)
+		}
+	}
+	semStrFields = append(semStrFields, "_exists_", "min", "select", "like")
+	semNumFields = append(semNumFields, "_id", "max")
+	semStrs = append(semStrs, "left", "null", "true", "_exists_", "select", "between")
+	dfChoices = append(dfChoices, "_exists_", "_all", "left", "select")
+	// numerals in the spellings of neighbouring notations
+	floatWords = append(floatWords, "1e-05", "2.5e-05", "1E5", "5.", "1e-7", "0.000001") // a + inside a word is the operator: only in valueShapes
+	boostNums = append(boostNums, "1e-05", "2.5e-05", "5e-1")
+	regexWords = append(regexWords, `/(api\/v1)+/`, `/(https?:\/\/)?x\.com/`, `/a\/(b)/`, `/\/)/`)
+	// regular expressions the lexer accepts and a regexp engine rejects
+	regexWords = append(regexWords, "/(/", "/[/", "/a(/", "/*a/", "/a{2,1}/", `/\p{Foo}/`, "/)/", "/+/")
 	// words that are member names or constants of the JSON encoding
 	plainWords = append(plainWords, "min", "max", "left", "right", "operator", "inclusive", "power", "distance", "true", "false", "null")
 	// field names that keep a backslash, a control character or a blank after parsing
@@ -450,4 +472,44 @@ func relatedName(t *qt) string {
 		return string(r[:len(r)-1]) + "Z"
 	}
 	return swapCase(f)
+}
+
+// values in the shapes of neighbouring notations: numbers with exponents and signs, dates and times, addresses, versions. Split
+// into tokens by the documented rule (a word is a maximal run of letters, digits, _ . - * ? ; every other character stands alone),
+// not by the lexer under test.
+var valueShapes = []string{"1e+5", "1E+5", "2.5e+10", "1e-5", "-1e+5", "2024-05-01T10:30", "2024-05-01T10:30:00Z", "2024-05-01", "10:30", "10:30:59.5", "1.2.3", "10.0.0.1",
+	"a-b-c", "x+y", "a+1", "1+1", "k=v", "a=b=c", "50%", "a>b", "a<=b", "1<2", "x~y", "x^y", "2^10", "a~1", "a:b:c", "f(x)", "f[0]", "m{k}", "a+b-c", "-x", "+x", "--x", "+-x", "x-", "x+",
+	"1e+", "1e+x", "e+5", "0x1F", "1_000", "T10:30", "Z", "2024-05-01T10:3", "3e+5e+7"}
+
+func splitShape(s string) []string {
+	out := []string{}
+	cur := ""
+	for _, r := range s {
+		if r == '_' || r == '.' || r == '-' || r == '*' || r == '?' || (r >= '0' && r <= '9') || (r >= 'a' && r <= 'z') || (r >= 'A' && r <= 'Z') {
+			if cur == "" && r == '-' { // a leading minus is its own token unless a digit follows (the documented negative number)
+				cur = "-"
+				continue
+			}
+			cur += string(r)
+			continue
+		}
+		if cur != "" {
+			out = append(out, cur)
+			cur = ""
+		}
+		out = append(out, string(r))
+	}
+	if cur != "" {
+		out = append(out, cur)
+	}
+	// a lone "-" directly followed by a non-digit word is the operator followed by the word
+	res := []string{}
+	for _, w := range out {
+		if len(w) > 1 && w[0] == '-' && !(w[1] >= '0' && w[1] <= '9') {
+			res = append(res, "-", w[1:])
+		} else {
+			res = append(res, w)
+		}
+	}
+	return res
 }
